@@ -113,6 +113,22 @@ def make_obs(rng, layout, mean=1.0, sigma=0.05, tau=0.0, kind='normal'):
     return o
 
 
+def grid_idl(rng, n, g, first=None):
+    """a list of n configurations on a grid of spacing g whose smallest spacing is a multiple of g (common spacing)"""
+    first = int(rng.integers(1, 30)) if first is None else first
+    kind = str(rng.choice(['contig', 'strided', 'gapped']))
+    mult = int(rng.choice([1, 1, 2]))
+    if kind == 'contig':
+        return range(first, first + n * g, g)
+    if kind == 'strided':
+        return range(first, first + n * g * mult, g * mult)
+    m = n + int(rng.integers(1, n + 1))
+    keep = sorted(rng.choice(np.arange(m), size=n, replace=False).tolist())
+    lst = [first + g * mult * p for p in keep]
+    d = np.diff(lst)
+    return range(lst[0], lst[-1] + int(d[0]), int(d[0])) if len(set(d)) == 1 else [int(x) for x in lst]
+
+
 LAYOUT_CLASSES = ['same', 'strided', 'gapped', 'overlap', 'replica_subset', 'second_ensemble', 'multi_replica', 'bare_name']
 
 
@@ -137,11 +153,13 @@ def operand_layouts(rng, cls, k, nmin=5, nmax=24):
         return res
     if cls == 'multi_replica':
         nrep = int(rng.integers(2, 4))
-        idls = [make_idl(rng, rng.choice(IDL_CLASSES), int(rng.integers(nmin, nmax))) for _ in range(nrep)]
+        g = int(rng.choice([1, 1, 2, 3]))
+        idls = [grid_idl(rng, int(rng.integers(nmin, nmax)), g) for _ in range(nrep)]
         return [[('A|r%d' % (r + 1), idls[r]) for r in range(nrep)] for _ in range(k)]
     if cls == 'replica_subset':
         nrep = int(rng.integers(2, 4))
-        idls = [make_idl(rng, rng.choice(['contig', 'strided']), int(rng.integers(nmin, nmax))) for _ in range(nrep)]
+        g = int(rng.choice([1, 1, 2, 3]))
+        idls = [grid_idl(rng, int(rng.integers(nmin, nmax)), g) for _ in range(nrep)]
         res = []
         for i in range(k):
             if i == 0:
